@@ -83,6 +83,8 @@ class Check:
             self.violations.append((key, what, replay))
 
     def require(self, cond, reason):
+        if REPLAY is not None:
+            return          # a single replayed case cannot satisfy coverage requirements
         if not cond:
             self.inconclusive.append(reason)
 
@@ -104,7 +106,7 @@ class Check:
         nviol = sum(self._viol_keys.values())
         replay_paths = []
         for i, (key, what, replay) in enumerate(self.violations):
-            path = os.path.join(VERIF, 'replays', '%s-seed%s-%d.json' % (self.pid, self.seed, i))
+            path = os.path.join(VERIF, 'replays', '%s-seed%s-%d%s.json' % (self.pid, self.seed, i, '-replayed' if REPLAY is not None else ''))
             with open(path, 'w') as f:
                 json.dump({'property': self.pid, 'key': key, 'what': what, 'seed': self.seed,
                            'tier': self.tier, 'replay': replay}, f, indent=1, default=repr)
@@ -137,8 +139,9 @@ class Check:
             'property_id': self.pid, 'tier': self.tier, 'seed': int(self.seed), 'level': 'exploration',
             'coverage': cov, 'assumptions': self.assumptions, 'wall_s': round(wall, 2), 'violations': int(nviol),
         }
-        with open(os.path.join(VERIF, 'evidence', self.pid + '.json'), 'w') as f:
-            json.dump(ev, f, indent=1, default=repr, sort_keys=True)
+        if REPLAY is None:
+            with open(os.path.join(VERIF, 'evidence', self.pid + '.json'), 'w') as f:
+                json.dump(ev, f, indent=1, default=repr, sort_keys=True)
         for l in lines:
             print(l)
         print("%s %s tier=%s seed=%s evaluations=%d classes=%d wall=%.1fs monitors=%s" % (
@@ -293,4 +296,35 @@ def main_args(argv=None):
     ap.add_argument('--seed', type=int, default=int(os.environ.get('VERIF_SEED', '0') or 0))
     ap.add_argument('--replay', default=None)
     ap.add_argument('--scale', type=float, default=float(os.environ.get('VT_SCALE', '1.0')))
-    return ap.parse_args(argv)
+    args = ap.parse_args(argv)
+    args.replay_case = None
+    if args.replay:
+        # a replay file names the seed, tier and case index it came from: the generators are deterministic in
+        # (seed, index), so the check re-creates exactly that case (and nothing else)
+        global REPLAY
+        with open(args.replay) as f:
+            rep = json.load(f)
+        REPLAY = rep
+        args.seed = int(rep.get('seed', args.seed))
+        args.tier = rep.get('tier', args.tier)
+        inner = rep.get('replay')
+        if isinstance(inner, dict) and inner.get('case') is not None:
+            args.replay_case = inner['case']
+    return args
+
+
+REPLAY = None
+
+
+def replay_cases(args, cases, make=None):
+    """in replay mode: the one case the replay file names (make(seed, idx) builds the tuple), else all cases"""
+    if not args.replay:
+        return cases
+    rc = args.replay_case
+    if rc is None:
+        return cases[:0]
+    if not isinstance(rc, (list, tuple)):
+        rc = [args.seed, rc]
+    if make:
+        return [make(*rc)]
+    return [tuple(rc)]
